@@ -19,12 +19,13 @@ import (
 // C17 — every network operation is bounded by the configured timeout (logical oracle, no waiting).
 
 type c17Cfg struct {
-	TLS   int  `json:"tls"`   // 0 none, 1 STARTTLS (mandatory), 2 implicit
-	Auth  int  `json:"auth"`  // 0 none, 1 PLAIN (one step), 2 LOGIN (multi step), 3 SCRAM-SHA-256 (multi step)
-	Entry int  `json:"entry"` // 0 DialWithContext, 1 DialAndSend, 2 Send on a dialled client, 3 Reset on a dialled client, 4 Send after the connection sat idle for an hour
-	HS    int  `json:"hs"`    // 1: the server goes silent inside the TLS handshake
-	WS    int  `json:"ws"`    // write-side stall: server stops reading after this many content bytes (0 = off)
-	CtxDL bool `json:"ctxdl"` // caller passes a context with its own (longer) deadline
+	TLS   int  `json:"tls"`            // 0 none, 1 STARTTLS (mandatory), 2 implicit
+	Auth  int  `json:"auth"`           // 0 none, 1 PLAIN (one step), 2 LOGIN (multi step), 3 SCRAM-SHA-256 (multi step)
+	Entry int  `json:"entry"`          // 0 DialWithContext, 1 DialAndSend, 2 Send on a dialled client, 3 Reset on a dialled client, 4 Send after the connection sat idle for an hour
+	HS    int  `json:"hs"`             // 1: the server goes silent inside the TLS handshake
+	WS    int  `json:"ws"`             // write-side stall: server stops reading after this many content bytes (0 = off)
+	CtxDL bool `json:"ctxdl"`          // caller passes a context with its own (longer) deadline
+	Msgs  int  `json:"msgs,omitempty"` // messages per send (default 1)
 }
 
 type c17Case struct {
@@ -39,6 +40,14 @@ var (
 	c17Tmo   = 7 * time.Second
 	c17Slack = 1500 * time.Millisecond
 )
+
+func c17Msgs(cfg c17Cfg) []*mail.Msg {
+	var ms []*mail.Msg
+	for i := 0; i < maxInt(1, cfg.Msgs); i++ {
+		ms = append(ms, hx.StdMsg(i, 2, mail.EncodingQP))
+	}
+	return ms
+}
 
 func c17Exec(r *vf.Run, cfg c17Cfg, c *vf.Chooser) (keys, whats []string) {
 	add := func(k, w string) { keys = append(keys, k); whats = append(whats, w) }
@@ -120,7 +129,7 @@ func c17Exec(r *vf.Run, cfg c17Cfg, c *vf.Chooser) (keys, whats []string) {
 			opErr = cl.DialWithContext(ctx)
 		case 1:
 			callStart = time.Now()
-			opErr = cl.DialAndSendWithContext(ctx, hx.StdMsg(0, 2, mail.EncodingQP))
+			opErr = cl.DialAndSendWithContext(ctx, c17Msgs(cfg)...)
 		default:
 			if err := cl.DialWithContext(ctx); err != nil {
 				r.HarnessError("C17 %+v: fault-free dial failed: %v", cfg, err)
@@ -135,7 +144,7 @@ func c17Exec(r *vf.Run, cfg c17Cfg, c *vf.Chooser) (keys, whats []string) {
 			if cfg.Entry == 3 {
 				opErr = cl.Reset()
 			} else {
-				opErr = cl.Send(hx.StdMsg(0, 2, mail.EncodingQP))
+				opErr = cl.Send(c17Msgs(cfg)...)
 			}
 		}
 	})
@@ -202,6 +211,9 @@ func init() {
 								continue
 							}
 							cfgs = append(cfgs, c17Cfg{TLS: tlsm, Auth: a, Entry: e, CtxDL: cd})
+							if (e == 1 || e == 2 || e == 4) && a <= 1 && !cd {
+								cfgs = append(cfgs, c17Cfg{TLS: tlsm, Auth: a, Entry: e, Msgs: 3})
+							}
 							if tlsm > 0 && e <= 1 && a == 0 {
 								cfgs = append(cfgs, c17Cfg{TLS: tlsm, Auth: a, Entry: e, HS: 1, CtxDL: cd})
 							}
